@@ -20,25 +20,8 @@ var (
 	ErrConcurrentTransaction = errors.New("datastore: concurrent transaction")
 )
 
-// MultiError mirrors appengine.MultiError.
-type MultiError []error
-
-func (m MultiError) Error() string {
-	n := 0
-	var first error
-	for _, e := range m {
-		if e != nil {
-			if n == 0 {
-				first = e
-			}
-			n++
-		}
-	}
-	if n == 0 {
-		return "(0 errors)"
-	}
-	return fmt.Sprintf("%v (and %d other errors)", first, n-1)
-}
+// MultiError is appengine.MultiError (the type batch operations return).
+type MultiError = vae.MultiError
 
 const (
 	maxEntityBytes = 1048572
